@@ -4,6 +4,7 @@ import (
 	"encoding/binary"
 	"fmt"
 	"io"
+	"math"
 )
 
 // RangeNamespaceDataIDV0Size defines the size of the RangeNamespaceDataIDV0Size in bytes,
@@ -23,7 +24,20 @@ func NewRangeNamespaceDataIDV0(
 	if err != nil {
 		return RangeNamespaceDataIDV0{}, err
 	}
-	return RangeNamespaceDataIDV0{RangeNamespaceDataID: rngData}, nil
+	rngid := RangeNamespaceDataIDV0{RangeNamespaceDataID: rngData}
+	if err := rngid.fitsEncoding(); err != nil {
+		return RangeNamespaceDataIDV0{}, err
+	}
+	return rngid, nil
+}
+
+// fitsEncoding reports whether From and To can be represented by the 16-bit fields of the V0 encoding.
+func (rngid RangeNamespaceDataIDV0) fitsEncoding() error {
+	if rngid.From < 0 || rngid.From > math.MaxUint16 || rngid.To < 0 || rngid.To > math.MaxUint16 {
+		return fmt.Errorf("%w: range [%d, %d) does not fit the 16-bit fields of RangeNamespaceDataIDV0",
+			ErrInvalidID, rngid.From, rngid.To)
+	}
+	return nil
 }
 
 // RangeNamespaceDataIDV0FromBinary deserializes a RangeNamespaceDataIDV0 from its binary form.
@@ -82,6 +96,9 @@ func (rngid RangeNamespaceDataIDV0) WriteTo(w io.Writer) (int64, error) {
 // appendTo helps in constructing the binary representation of RangeNamespaceDataIDV0
 // by appending all encoded fields.
 func (rngid RangeNamespaceDataIDV0) appendTo(data []byte) ([]byte, error) {
+	if err := rngid.fitsEncoding(); err != nil {
+		return nil, err
+	}
 	data, err := rngid.AppendBinary(data)
 	if err != nil {
 		return nil, fmt.Errorf("appending EdsID: %w", err)
